@@ -240,8 +240,17 @@ def oracle_commutative(ctx, cmds, max_perms=6):
         if case.cmd not in cmds or len(case.inputs) < 2:
             return
         n = len(case.inputs)
-        perms = list(itertools.permutations(range(n)))[1:]
-        ctx.rng.shuffle(perms)
+        if n <= 6:
+            perms = list(itertools.permutations(range(n)))[1:]
+            ctx.rng.shuffle(perms)
+        else:
+            # long input lists: random orderings (and the reversed one) instead of all n! of them
+            perms = [tuple(reversed(range(n)))]
+            while len(perms) < max_perms:
+                q = list(range(n))
+                ctx.rng.shuffle(q)
+                if q != list(range(n)):
+                    perms.append(tuple(q))
         for perm in perms[:max_perms]:
             params = dict(case.params)
             if "Weights" in params and len(params["Weights"]) == n:
